@@ -79,11 +79,11 @@ class Program:
     def sympy_process_noise(self, values=None):
         st = self.symtab()
         values = values if values is not None else self.process_noise
-        return {st[c]: values[c] for c in self.control}
+        return {st[c]: _as_user_number(values[c]) for c in self.control}
 
     def sympy_sensor_noise(self, values=None):
         values = values if values is not None else self.sensor_noise
-        return {k: {r: values[k][r] for r in self.sensors[k]} for k in self.sensors}
+        return {k: {r: _as_user_number(values[k][r]) for r in self.sensors[k]} for k in self.sensors}
 
     def sympy_calibration_map(self, values=None):
         st = self.symtab()
@@ -142,6 +142,16 @@ class Program:
             ident_safe=self.ident_safe,
             note=self.note,
         )
+
+
+def _as_user_number(v):
+    """A noise value written as a Fraction in the corpus is handed to FormaK as an exact sympy Rational (one of the
+    forms a user may write); everything else as it is."""
+    if isinstance(v, Fraction):
+        import sympy
+
+        return sympy.Rational(v.numerator, v.denominator)
+    return v
 
 
 def subst(e, sub):
